@@ -56,3 +56,8 @@ Theorem C08_rank_attribute :
     exists fronts, is_ndsb F n fronts = true /\ map (fun a : nat * nat * N => fst a) attrs = rank_pairs 0 fronts.
 Proof. exact @rnc_do_attrs. Qed.
 Print Assumptions C08_rank_attribute.
+
+(* ---- binary64, all values but NaN (Base/NumFOrd.v, Flocq) ---- *)
+From PV Require Import Base.NumF Base.NumFOrd.
+Definition C08_rank0_members_are_the_nondominated_ones_float_nn := C08_rank0_members_are_the_nondominated_ones Fn nonnanf Fn_ord_nn.
+Print Assumptions C08_rank0_members_are_the_nondominated_ones_float_nn.
